@@ -1158,16 +1158,20 @@ fn run_episode(drv: &mut dyn Drv, meta: &Meta, args: &RunArgs, episode: u64, rep
         report.count("ledger.deaths", z1.deaths - zst0.deaths);
         report.count("ledger.zero_size_births", z1.zst_births - zst0.zst_births);
         if z1.zst_births - zst0.zst_births != z1.zst_deaths - zst0.zst_deaths {
-            ep.finding(
-                report,
-                "C06",
-                "zero-size-value-drop-count",
-                format!(
-                    "{} zero-size values with a destructor were made, {} were destroyed",
-                    z1.zst_births - zst0.zst_births,
-                    z1.zst_deaths - zst0.zst_deaths
-                ),
+            let detail = format!(
+                "{} zero-size values with a destructor were made, {} were destroyed",
+                z1.zst_births - zst0.zst_births,
+                z1.zst_deaths - zst0.zst_deaths
             );
+            ep.finding(report, "C06", "zero-size-value-drop-count", detail.clone());
+            // the counters cannot tell which operation miscounted: an episode that cloned or
+            // deserialised records is a witness for those properties too
+            if ep.n_clone + ep.n_clone_panic > 0 {
+                ep.finding(report, "C16", "zero-size-value-drop-count", detail.clone());
+            }
+            if ep.n_ser > 0 {
+                ep.finding(report, "C15", "zero-size-value-drop-count", detail);
+            }
         }
         ep.drain_events("C06", report);
     } else {
